@@ -333,17 +333,18 @@ type Spec struct {
 
 // Loop is a running system.
 type Loop struct {
-	Spec         Spec
-	dir          string
-	bin          string
-	farm         *farm
-	shards       []*rshard
-	coord        *exec.Cmd
-	coordOut     *lockedBuf
-	coordAPI     string
-	coordDone    chan error
-	coordStarted time.Time
-	targets      map[int]bool // currently configured target ids
+	Spec           Spec
+	dir            string
+	bin            string
+	farm           *farm
+	shards         []*rshard
+	coord          *exec.Cmd
+	coordOut       *lockedBuf
+	coordAPI       string
+	coordDone      chan error
+	coordStarted   time.Time
+	globalInterval string       // global scrape_interval written to the coordinator's file (default 15s)
+	targets        map[int]bool // currently configured target ids
 }
 
 const richJobHead = `global:
@@ -374,6 +375,19 @@ scrape_configs:
     action: drop
   static_configs:
 `
+
+// SetCollect gives the job a collect[] param with two values from the next configuration on; every value adds per
+// samples to every target's answer.
+func (l *Loop) SetCollect(per int) {
+	l.Spec.Collect = per
+	l.farm.mu.Lock()
+	l.farm.collectPer = per
+	l.farm.mu.Unlock()
+}
+
+// EditGlobalInterval changes the global scrape_interval of the next configuration written (an edit that changes
+// every job's effective settings and nothing about its targets).
+func (l *Loop) EditGlobalInterval(v string) { l.globalInterval = v }
 
 // ConfigText returns the coordinator's configuration file as last written.
 func (l *Loop) ConfigText() string {
@@ -420,7 +434,11 @@ func (l *Loop) writeConfig() error {
 	if l.Spec.Collect > 0 {
 		params = "  params:\n    'collect[]': [cpu, mem]\n"
 	}
-	sb.WriteString("global:\n  scrape_interval: 15s\n  scrape_timeout: 10s\nscrape_configs:\n- job_name: job\n" + params + "  metric_relabel_configs:\n  - source_labels: [__name__]\n    regex: dropme.*\n    action: drop\n  static_configs:\n")
+	gi := l.globalInterval
+	if gi == "" {
+		gi = "15s"
+	}
+	sb.WriteString("global:\n  scrape_interval: " + gi + "\n  scrape_timeout: 10s\nscrape_configs:\n- job_name: job\n" + params + "  metric_relabel_configs:\n  - source_labels: [__name__]\n    regex: dropme.*\n    action: drop\n  static_configs:\n")
 	var ids []int
 	for id := range l.targets {
 		ids = append(ids, id)
